@@ -116,6 +116,7 @@ func check(args []string) (code int) {
 	c.Quiet = *quiet
 	c.ListUndecided = *listUndec
 	fn(c)
+	c.Explain += props.ExtraExplain[id]
 	code = c.Finish()
 	if code == 0 && *tier == "thorough" && !*noWrite && *repo == "/repo" {
 		if st := props.Selftest([]string{id}); st != 0 {
